@@ -357,3 +357,122 @@ Theorem C18_page_corners_go_to_trim_box s pw ph bl bt br bb :
   fst (PM.css_to_pdf s ph pw 0) == t3 /\ snd (PM.css_to_pdf s ph pw 0) == t4.
 Proof. exact (GP.page_corners_go_to_trim_box s pw ph bl bt br bb). Qed.
 Print Assumptions C18_page_corners_go_to_trim_box.
+
+(* ---- 9. source: the level stack of make_page_bookmark_tree (weasyprint/anchors.py), REGENERATED on every run
+   (gen/GenAnchors.v, bookmark_stack_step_body: the head of the loop body, `if level > previous_level: ..` through
+   `assert depth >= 1`, with `skipped_levels.pop()` hoisted out of the expression by the printer).
+   GB.qz q z : the number q is the integer z (q == inject_Z z); GB.qzs l zs : pointwise.  The model's stack has its top
+   first: the Python list skipped_levels is `rev lrev`.  GB.stack_step level sk prev = [adjust] (section 1's level
+   bookkeeping) followed by depth = level - sum and the two asserts: the head of [step], GB.step_is_stack_step. *)
+Require WV.proofs.C18_gen_bookmarks.
+Module GB := WV.proofs.C18_gen_bookmarks.
+Open Scope Z_scope.
+
+(* the model's step is the translated head followed by the placement of the node at the computed depth *)
+Theorem C18_source_step_is_stack_step (A : Type) (s : state A) (level : Z) (a : A) :
+  step s level a =
+  match GB.stack_step level (skipped s) (prev s) with
+  | inl e => inl e
+  | inr (sk, depth) =>
+      if negb (depth - 1 <? Z.of_nat (S (List.length (opens s)))) then inl EIndex
+      else let '(rk, ops) := close_n (List.length (opens s) - (Z.to_nat depth - 1)) (rootk s) (opens s) in
+           inr (mkst sk level rk ((npos s, a, nil) :: ops) (S (npos s)))
+  end.
+Proof. exact (GB.step_is_stack_step s level a). Qed.
+Print Assumptions C18_source_step_is_stack_step.
+
+(* every integer level, previous level and stack of integers (shorter than the fuel of the `while`): the regenerated
+   statements end with skipped_levels = the model's new stack, previous_level = level, depth = the model's depth
+   exactly when the model's head of step succeeds; they raise IndexError exactly when the model says EPopEmpty
+   (skipped_levels.pop() on an empty list) and AssertionError exactly when it says EAssertDepthLen / EAssertDepthGe1 *)
+Theorem C18_source_bookmark_stack_step O (HO : Py.ops_ok O) level prev sk ql qp lrev :
+  GB.qz ql level -> GB.qz qp prev -> GB.qzs lrev sk -> (List.length sk < Py.wfuel O)%nat ->
+  Py.run O GenAnchors.bookmark_stack_step_body
+      [("level"%string, Py.VNum ql); ("previous_level"%string, Py.VNum qp);
+       ("skipped_levels"%string, Py.VList (map Py.VNum (rev lrev)))]
+      (fun rho r =>
+         match GB.stack_step level sk prev with
+         | inr (sk', d) =>
+             r = None /\
+             exists lrev' qd, Py.lookup "skipped_levels" rho = Py.VList (map Py.VNum (rev lrev')) /\ GB.qzs lrev' sk' /\
+                              Py.lookup "previous_level" rho = Py.VNum ql /\
+                              Py.lookup "depth" rho = Py.VNum qd /\ GB.qz qd d
+         | inl _ => False
+         end)
+      (fun m => match GB.stack_step level sk prev with inl e => m = GB.err_name e | inr _ => False end).
+Proof. exact (GB.gen_bookmark_stack_step O HO level prev sk ql qp lrev). Qed.
+Print Assumptions C18_source_bookmark_stack_step.
+
+(* no bound on the stack: with the real operations and fuel len(stack) + 1 *)
+Theorem C18_source_bookmark_stack_step_any level prev sk ql qp lrev :
+  GB.qz ql level -> GB.qz qp prev -> GB.qzs lrev sk ->
+  Py.run (Py.with_fuel Py.real_ops (S (List.length sk))) GenAnchors.bookmark_stack_step_body
+      [("level"%string, Py.VNum ql); ("previous_level"%string, Py.VNum qp);
+       ("skipped_levels"%string, Py.VList (map Py.VNum (rev lrev)))]
+      (GB.stack_post ql level sk prev) (GB.stack_raises level sk prev).
+Proof. exact (GB.gen_bookmark_stack_step_any level prev sk ql qp lrev). Qed.
+Print Assumptions C18_source_bookmark_stack_step_any.
+
+(* under the invariant of section 1 (previous_level = sum + len of the stack, entries >= 0) a bookmark level >= 1
+   makes the regenerated statements end normally - pop() in range, neither assert fires - with the stack [adjust]
+   computes, depth = len(skipped_levels) >= 1 (skipped levels are closed up: depth grows by at most one per entry)
+   and the invariant again (level = sum + len of the new stack) *)
+Theorem C18_source_bookmark_stack_step_never_raises level sk ql qp lrev :
+  Forall (fun s => 0 <= s) sk -> 1 <= level -> GB.qz ql level -> GB.qz qp (sumlen sk) -> GB.qzs lrev sk ->
+  Py.run (Py.with_fuel Py.real_ops (S (List.length sk))) GenAnchors.bookmark_stack_step_body
+      [("level"%string, Py.VNum ql); ("previous_level"%string, Py.VNum qp);
+       ("skipped_levels"%string, Py.VList (map Py.VNum (rev lrev)))]
+      (fun rho r =>
+         r = None /\
+         exists lrev' sk' qd,
+           Py.lookup "skipped_levels" rho = Py.VList (map Py.VNum (rev lrev')) /\ GB.qzs lrev' sk' /\
+           Py.lookup "previous_level" rho = Py.VNum ql /\ Py.lookup "depth" rho = Py.VNum qd /\
+           GB.qz qd (Z.of_nat (List.length sk')) /\ (1 <= List.length sk')%nat /\
+           Forall (fun s => 0 <= s) sk' /\ level = sumlen sk' /\ adjust level sk (sumlen sk) = inr sk')
+      (fun _ => False).
+Proof. exact (GB.gen_bookmark_stack_step_never_raises level sk ql qp lrev). Qed.
+Print Assumptions C18_source_bookmark_stack_step_never_raises.
+
+(* ---- 10. source: the Count bookkeeping of add_outlines (weasyprint/pdf/anchors.py), REGENERATED on every run
+   (gen/GenPdfAnchors.v, outline_count_step_body: `outline['Count'] = children_count` and the `if state == 'closed':
+   outline['Count'] *= -1  else: count += children_count` statement of the loop over the bookmarks, right after the
+   recursive call; the recursion, the pydyf objects and the Prev / Next / First / Last / Parent entries are not
+   translated).  GO.closedb s = (s = "closed"); GO.qz q z : the number q is the integer z. *)
+Require WV.gen.GenPdfAnchors WV.proofs.C18_gen_outline_count WV.proofs.PyNatural.
+Module GO := WV.proofs.C18_gen_outline_count.
+
+(* every dictionary (entries f), children_count c, state string s and count n: Count becomes c, times -1 exactly when
+   the state is 'closed'; count grows by c exactly when it is not; nothing else changes, nothing raises *)
+Theorem C18_source_outline_count_step O (HO : Py.ops_ok O) f c s n :
+  PyNatural.run_out O GenPdfAnchors.outline_count_step_body
+    [("outline"%string, Py.VObj f); ("children_count"%string, Py.VNum c); ("state"%string, Py.VStr s);
+     ("count"%string, Py.VNum n)] =
+  PyNatural.ONorm
+    [("outline"%string, Py.VObj (Py.update "Count" (Py.VNum (if GO.closedb s then (c * (0 - (1 # 1)))%Q else c)) f));
+     ("children_count"%string, Py.VNum c); ("state"%string, Py.VStr s);
+     ("count"%string, Py.VNum (if GO.closedb s then n else (n + c)%Q))] None.
+Proof. exact (GO.gen_outline_count_step O HO f c s n). Qed.
+Print Assumptions C18_source_outline_count_step.
+
+(* an item t whose children's count is the model's (what the recursive call returns): its Count is count_spec t - the
+   number of its visible descendants, negated when it is closed (section 2) - and the enclosing list's count grows by
+   that number exactly when the item is open *)
+Theorem C18_source_outline_count_of_item O (HO : Py.ops_ok O) f s qc qn zn (t : ntree) :
+  GO.qz qc (ncount_tree t) -> GO.qz qn zn -> GO.closedb s = nclosed t ->
+  exists qo qn',
+    PyNatural.run_out O GenPdfAnchors.outline_count_step_body
+      [("outline"%string, Py.VObj f); ("children_count"%string, Py.VNum qc); ("state"%string, Py.VStr s);
+       ("count"%string, Py.VNum qn)] =
+    PyNatural.ONorm [("outline"%string, Py.VObj (Py.update "Count" (Py.VNum qo) f)); ("children_count"%string, Py.VNum qc);
+                     ("state"%string, Py.VStr s); ("count"%string, Py.VNum qn')] None /\
+    GO.qz qo (count_spec t) /\ GO.qz qn' (if nclosed t then zn else zn + visible_desc t).
+Proof. exact (GO.gen_outline_count_of_item O HO f s qc qn zn t). Qed.
+Print Assumptions C18_source_outline_count_of_item.
+
+(* the regenerated statements iterated over the siblings ks from count = len(bookmarks) (GO.run_count_loop: each item
+   with its children's count and its state): the count returned for the list is the number of visible items at all
+   levels below it (the Count of the outlines dictionary, and of an open parent) *)
+Theorem C18_source_outline_count_is_visible_total O (HO : Py.ops_ok O) (ks : list ntree) :
+  exists q, GO.run_count_loop O ks (inject_Z (Z.of_nat (List.length ks))) = Some q /\ GO.qz q (visible_total ks).
+Proof. exact (GO.gen_outline_count_is_visible_total O HO ks). Qed.
+Print Assumptions C18_source_outline_count_is_visible_total.
